@@ -4,6 +4,7 @@ import (
 	"context"
 	"fmt"
 	"regexp"
+	"runtime"
 	"sort"
 	"strings"
 	"time"
@@ -190,7 +191,7 @@ func buildListener(fs []*gFilter) *xdsresource.ListenerResource {
 var (
 	c08Keys    = []string{"k1", "k2", "k3"}
 	c08Vals    = []string{"v1", "v2", "abc", "ab", "b", "xv1"}
-	c08Regexes = []string{"^a.*", "v[12]", "b$", "^ab?c?$", ".", ".*", "^(ab|b)?$", "x*"} // the last three accept the empty string: a condition on an absent key must still be false
+	c08Regexes = []string{"^a.*", "v[12]", "b$", "^ab?c?$", ".", ".*", "^(ab|b)?$", "x*", "v1"} // the last three accept the empty string: a condition on an absent key must still be false
 	c08Methods = []string{"m1", "m2", "echo"}
 )
 
@@ -338,6 +339,9 @@ type c08Session struct {
 }
 
 func runC08(c *ctx) {
+	for i := 0; i < 3; i++ {
+		routeOverlap(c)
+	}
 	g := &c08gen{r: c.rng}
 	n := 2500 * c.budget
 	var sess c08Session
@@ -538,4 +542,89 @@ func runC08(c *ctx) {
 			"inv":      obj{"pkg": pkg, "svc": svc, "method": method, "toMethod": toMethod},
 			"listener": lj, "named": nm, "rx": rx, "obs": o})
 	}
+}
+
+type c08MdKey struct{}
+
+// parkMatcher is a header condition that can be held up while it is evaluated (and then says no): a call that is in the
+// middle of walking its route table.
+type parkMatcher struct {
+	entered chan struct{}
+	gate    chan struct{}
+}
+
+func (p *parkMatcher) Match(string) bool {
+	select {
+	case p.entered <- struct{}{}:
+		<-p.gate
+	default:
+	}
+	return false
+}
+
+// routeOverlap: call A (method alpha) is held up in the middle of its walk through the route table; call B (method
+// bravo) is routed to completion meanwhile on the same processor; then A goes on. Every call is routed by ITS path:
+// nothing a call computes may be shared with another call. The case is emitted as an ordinary route case for A (the
+// parked condition reads as one that does not hold).
+func routeOverlap(c *ctx) {
+	old := runtime.GOMAXPROCS(1)
+	defer runtime.GOMAXPROCS(old)
+	pm := &parkMatcher{entered: make(chan struct{}), gate: make(chan struct{})}
+	mk := func(path, cluster string, conds []gCond, prefix string) *gRoute {
+		return &gRoute{Kind: "http", Path: path, Prefix: prefix, Conds: conds, Clusters: [][2]interface{}{{cluster, 1}}, TimeoutMs: 100}
+	}
+	cfg := &gCfg{HasHTTP: true, HTTP: []*gVHost{{Name: "vh", Routes: []*gRoute{
+		mk("", "gated", []gCond{{Key: "k1", Kind: "exact", Val: "never"}}, "/"),
+		mk("/pkg.svc/alpha", "alpha", nil, ""),
+		mk("/pkg.svc/bravo", "bravo", nil, ""),
+	}}}}
+	fs := []*gFilter{{RcName: "rc-a"}}
+	stub := newStub()
+	useBackend(stub)
+	built := cfg.build()
+	built.HTTPRouteConfig.VirtualHosts[0].Routes[0].Match.(*xdsresource.HTTPRouteMatch).Headers["k1"] = pm
+	stub.res[stubKey{xdsresource.ListenerType, "dest"}] = buildListener(fs)
+	stub.res[stubKey{xdsresource.RouteConfigType, "rc-a"}] = built
+	mdA := map[string]string{"k1": "v1"}
+	router := xdssuite.NewXDSRouter(xdssuite.WithRouterMetaExtractor(func(ctx context.Context) map[string]string {
+		if m, ok := ctx.Value(c08MdKey{}).(map[string]string); ok {
+			return m
+		}
+		return map[string]string{}
+	}))
+	call := func(method string, md map[string]string) (obj, bool) {
+		to := rpcinfo.NewEndpointInfo("dest", method, nil, nil)
+		ri := rpcinfo.NewRPCInfo(nil, to, rpcinfo.NewInvocation("svc", method, "pkg"), rpcinfo.NewRPCConfig(), nil)
+		var res *xdssuite.RouteResult
+		var err error
+		p, pmsg := recoverTo(func() { res, err = router.Route(context.WithValue(context.Background(), c08MdKey{}, md), ri) })
+		o := obj{"panic": p, "panicMsg": pmsg, "err": classifyRouteErr(err), "cluster": nil, "timeoutMs": 0}
+		if !p && err == nil && res != nil {
+			o["cluster"] = res.ClusterPicked
+			o["timeoutMs"] = int(res.RPCTimeout / time.Millisecond)
+		}
+		return o, p
+	}
+	resA := make(chan obj, 1)
+	go func() { o, _ := call("alpha", mdA); resA <- o }()
+	select {
+	case <-pm.entered:
+	case <-time.After(3 * time.Second):
+		close(pm.gate)
+		return
+	}
+	_, _ = call("bravo", map[string]string{}) // no k1: the gated route does not apply; routed by the exact path
+	close(pm.gate)
+	oA := <-resA
+	rx := []interface{}{}
+	for _, re := range c08Regexes {
+		cre := regexp.MustCompile(re)
+		for _, v := range []string{"", "v1"} {
+			rx = append(rx, []interface{}{re, v, cre.MatchString(v)})
+		}
+	}
+	c.count("route-overlap", 1)
+	c.emit(obj{"op": "route", "grpc": false, "md": []interface{}{[]interface{}{"k1", "v1"}}, "extractor": "custom",
+		"inv":      obj{"pkg": "pkg", "svc": "svc", "method": "alpha", "toMethod": "alpha"},
+		"listener": obj{"filters": filtersJSON(fs)}, "named": obj{"rc-a": cfg.json()}, "rx": rx, "obs": oA, "overlap": true})
 }
